@@ -75,6 +75,12 @@ func runC16(c *core.Ctx) {
 
 	c.Doc("C16.subscribers", "OnTerminate hands every former subscriber the termination error and drops its handler", 2)
 	ruleSubscribersTold(c)
+
+	c.Doc("C16.client-ids", "client-side object ids: counter only incremented, under its mutex", 1)
+	ruleClientIDs(c, lc)
+
+	c.Doc("C16.mailbox", "mailboxes are never closed (Receive sends to a mailbox after releasing the service lock)", 1)
+	ruleMailboxNeverClosed(c)
 }
 
 type tableWrite struct {
@@ -295,8 +301,12 @@ func ruleSubscribersTold(c *core.Ctx) {
 		if st, ok := acc.instr.(*ssa.Store); ok && acc.write {
 			switch x := core.Canon(st.Val).(type) {
 			case *ssa.Slice:
-				_ = x
-				emptied = true
+				// only a slice of a fresh array is a new, empty list; re-slicing the
+				// old list (signals[:0]) shares its backing array with the snapshot
+				// being walked
+				if _, fresh := x.X.(*ssa.Alloc); fresh {
+					emptied = true
+				}
 			case *ssa.Const:
 				emptied = x.Value == nil
 			case *ssa.MakeSlice:
@@ -304,7 +314,7 @@ func ruleSubscribersTold(c *core.Ctx) {
 			}
 		}
 	}
-	c.Check(emptied, rule, "bus.signalHandler.OnTerminate/clear", fn.Pos(), "the subscriber list is replaced by an empty one", "OnTerminate keeps the subscribers registered: a terminated object keeps emitting to them / they are never released")
+	c.Check(emptied, rule, "bus.signalHandler.OnTerminate/clear", fn.Pos(), "the subscriber list is replaced by a fresh empty one", "OnTerminate does not replace the subscriber list by a fresh empty list (it keeps the subscribers, or re-slices the old list so that the snapshot it walks shares its backing array with new registrations): remaining subscribers are not all told")
 	var st, rm ssa.Instruction
 	for _, call := range core.Calls(fn) {
 		if core.IsCallTo(call, sendT) {
@@ -321,4 +331,58 @@ func ruleSubscribersTold(c *core.Ctx) {
 	}
 	c.Check(inLoop(st) && inLoop(rm), rule, "bus.signalHandler.OnTerminate/tell", fn.Pos(), "every former subscriber gets the termination error and loses its disconnect handler",
 		"OnTerminate does not tell every remaining subscriber (sendTerminate / RemoveHandler not executed per subscriber)")
+}
+
+// ruleClientIDs: clientService.nextID is only ever incremented by a positive
+// constant (an id handed out is never handed out again).
+func ruleClientIDs(c *core.Ctx, lc *core.LockCache) {
+	const rule = "C16.client-ids"
+	idF := c.Field("bus", "clientService", "nextID")
+	if idF == nil {
+		c.Undecided(rule, "bus.clientService.nextID", token.NoPos, "anchor not found")
+		return
+	}
+	n := 0
+	for _, fn := range srcFuncsOfPkg(c, "bus") {
+		for i, acc := range fieldAccesses(fn, idF) {
+			if !acc.write || acc.fresh {
+				continue
+			}
+			n++
+			st, ok := acc.instr.(*ssa.Store)
+			c.Check(ok && incOfField(st.Val, idF), rule, fmt.Sprintf("nextID-store@%s#%d", core.FuncKey(fn), i), core.InstrPos(acc.instr),
+				"nextID = nextID + positive constant", "the object id counter is assigned something other than itself plus a positive constant (rolled back or reset): an identifier still in use can be handed out again")
+		}
+	}
+	if n == 0 {
+		c.Fail(rule, "nextID-store", idF.Pos(), "the object id counter is never advanced")
+	}
+}
+
+// ruleMailboxNeverClosed: serviceImpl.Receive looks the mailbox up under the
+// read lock, releases it and then sends; closing a mailbox anywhere makes that
+// send panic (send on closed channel) and takes the server down.
+func ruleMailboxNeverClosed(c *core.Ctx) {
+	const rule = "C16.mailbox"
+	n := 0
+	for _, fn := range c.RepoFuncs("bus") {
+		if c.IsTestFile(fn) {
+			continue
+		}
+		for _, b := range fn.Blocks {
+			for _, in := range b.Instrs {
+				ch := isCloseBuiltin(in)
+				if ch == nil {
+					continue
+				}
+				if core.TypeIs(ch.Type(), "bus", "MailBox") || isFieldOf(ch, c.Field("bus", "serviceImpl", "boxes")) {
+					n++
+					c.Fail(rule, "close(MailBox)@"+core.FuncKey(fn), in.Pos(), "a mailbox is closed while connection goroutines may be about to send to it (Receive sends after releasing the lock): send on closed channel panics the server")
+				}
+			}
+		}
+	}
+	if n == 0 {
+		c.Pass(rule, "close(MailBox)", token.NoPos, "no mailbox is ever closed")
+	}
 }
